@@ -21,6 +21,32 @@ def keyfn_free(variant, f):
     return "%s.%s %s%s" % (variant, f.op, f.kind, ("/" + d) if d else "")
 
 
+# round 4 (mixed-class elements): trailing class arguments (1 = spif_str, 2 = spif_url with the same text) per operation
+CLASS_ARGS = {"set": 2, "set_pair": 2, "set_keep": 2, "set_own_key": 1, "remove": 1, "get": 1, "has_key": 1, "has_value": 1,
+              "insert": 1, "find": 1, "contains": 1}
+MIX_ARG = {"fill_set", "fill"}        # 1 all strs, 2 all urls, 3 odd numbers urls / even numbers strs
+
+
+def add_classes(lines, choose):
+    """Appends the class arguments to the lines of a generated history.  choose() -> 1 or 2.  While a copy is live
+    (between dup and b_del/adopt) every argument is a str: the model offers urls only then (model bound)."""
+    out = []
+    live = False
+    for ln in lines:
+        op = ln.split()[0]
+        if op == "dup":
+            live = True
+        elif op in ("b_del", "adopt"):
+            live = False
+        n = CLASS_ARGS.get(op, 0)
+        if n:
+            ln += "".join(" %d" % (1 if live else choose()) for _ in range(n))
+        elif op in MIX_ARG:
+            ln += " %d" % (1 if live else 3)
+        out.append(ln)
+    return out
+
+
 def record_validate(ctx, exe, cls, hargs, hist, init, module, cfg, corrupt=None, tag=None, sid0=1, env=None):
     """hist: list of histories (lists of 'op arg..' lines).  Reports violations through ctx.
     Returns (events_validated, max_size_of_a, accepted).  corrupt(events) may damage the events (binding demonstration)."""
